@@ -31,9 +31,11 @@ RULE = ("programs = container construction x sink; the sink catalogue "
         "(every iteration/comprehension/spread/destructuring/rendering/"
         "conversion/operator form and every function of the legacy base "
         "environment and bundled modules with the container in each "
-        "argument position) is enumerated completely for a string set and a "
-        "string-keyed map and combined randomly with containers of strings, "
-        "colliding ints, mixed scalars and nested lists; every program has "
+        "argument position, de-duplication of equal containers, tie-making "
+        "callbacks, mutate-and-observe sequences) is enumerated completely "
+        "for a string, a mixed and a numeric set and map and combined "
+        "randomly with containers of strings, colliding ints, decimals, "
+        "mixed scalars and nested lists; every program has "
         "3 variants (canonical, permuted insertion order, insert-and-delete "
         "history) and runs in h fresh processes under distinct "
         "PYTHONHASHSEEDs; one evaluation = one (program variant, process) "
@@ -126,6 +128,16 @@ def syntactic_sinks(kind):
     add("error-value", "error c")
     add("catch-value", "do error c; catch c2 'no'; catch c 'yes'; end")
     add("json-ish", "string([c, <<<1 => c>>>])")
+    # a string that was compared, then modified in place, then put into a
+    # set next to a string equal to its old text
+    add("mutated-string-in-set",
+        "do def e_ = 'm0'; def w_ = sorted([e_, 'a', 'm1']); e_[1] = '1'; "
+        "def t_ = <<e_, 'm0', 'zz', 'm1x'>>; [w_, string(t_), list(t_), "
+        "[x for x in t_]]; end")
+    add("mutated-string-as-key",
+        "do def e_ = 'k0'; def w_ = <<<e_ => 1>>>; string(w_); e_[1] = '9'; "
+        "def t_ = <<<e_ => 1, 'k0' => 2, 'k9x' => 3>>>; "
+        "[string(t_), [k for k in keys t_]]; end")
     add("error-in-call", "do def f_(a, b) error 'x'; f_(c, c2); end")
     add("error-in-nested-call", "do def g_(a) 1 / 0; def f_(a) g_([a]); "
         "f_(c); end")
@@ -204,6 +216,16 @@ def syntactic_sinks(kind):
         add("observe-compound", "do def a_ = string(c); c['zq'] = 1; "
             "c['zq'] += 1; [a_, string(c), [k for k in keys c]]; end")
     else:
+        # a loop that adds elements to the very set it iterates
+        add("for-growing-set",
+            "do def out = []; for x in c do if length(c) < 9 then do "
+            "append(c, string(x) + 'n1'); append(c, string(x) + 'n2'); end; "
+            "out !> append(x); end; [out, string(c)]; end")
+        add("map-from-set-of-pairs", "map(<<['k', x] for x in c>>)")
+        add("map-from-set-of-pairs2",
+            "map(set([[length(string(x)), x] for x in c]))")
+        add("object-from-set-of-pairs",
+            "object(set([['k', x] for x in c]))")
         add("for-destructured",
             "for [p, q] in <<[x, 1] for x in c>> do print(string(p) + "
             "'|'); end")
